@@ -288,3 +288,27 @@ Print Assumptions C19_parse_teal_version_gen_eq.
 Print Assumptions C19_parse_teal_version_gen_classification.
 Print Assumptions C19_contract_type_gen_iff.
 Print Assumptions C19_bb_cost_gen_eq.
+
+(* ------------------------------------------------------------------------------------------------------------
+   Extension (report producers regenerated): Lemmas/ReportGenLemmas.v about Gen/ReportGen.v, the translation of
+   ExecutionPaths.to_json, __main__.py handle_output and the filter / report slices of main, the transaction-context
+   printer annotations and the human-summary printer; values, not text layout.  *)
+From Coq Require Import String List NArith ZArith Bool Arith.
+From Tealer Require Import Tables LeafPrelude Syntax Parse Cfg Keys Analysis Domains Detect KeysGen Output OutputGen ReportGen CfgLemmas SubLemmas GraphWf OutputLemmas OutputGenLemmas VersionLemmas VersionGenLemmas ReportGenLemmas.
+
+(* human-summary printer: declared version, detected mode, numbers of retained blocks, retained instructions and subroutines *)
+Theorem C19_summary_gen_parsed :
+      forall (p : prog) (t : teal),
+       parse_teal p = Ok t ->
+       summary_gen t =
+       Some
+         ((SumVersion (N.to_nat (declared_version p))
+           :: SumMode (detect_mode p)
+              :: SumBlocks (Datatypes.length (full_cfg_nodes t))
+                 :: SumInstructions (Datatypes.length (t_retained_ins t))
+                    :: SumSubroutines (Datatypes.length (t_subs t)) :: nil) ++
+          flat_map (fun s : subroutine => SumSubName (s_name s) :: SumSubBlocks (s_blocks s) :: nil)
+            (t_subs t)).
+Proof. exact @summary_gen_parsed. Qed.
+
+Print Assumptions C19_summary_gen_parsed.
